@@ -26,7 +26,7 @@ import (
 
 // realSlack: a string measured alone and the same string as part of a longer shaped text differ by
 // the kerning against the neighbouring character and by the engines' fixed-point rounding.
-const realSlack = 1.0
+const realSlack = 2.0
 
 func checkReal(in *c11In) fw.Result {
 	var res fw.Result
@@ -151,8 +151,8 @@ func checkReal(in *c11In) fw.Result {
 			natural := measure(l.style, l.text)
 			justified := t.Align == "justify" && !last && strings.Contains(l.text, " ")
 			// (kerning against the character after the break may be part of the last advance:
-			// 1px of slack)
-			if !justified && math.Abs(natural-l.w) > 1 {
+			// realSlack)
+			if !justified && math.Abs(natural-l.w) > realSlack {
 				fail("width", fmt.Sprintf("line %d %q is %g wide, the same string measures %g", i+1, l.text, l.w, natural))
 				okBlock = false
 				break
